@@ -278,7 +278,6 @@ struct Runner
                 uint64_t k = 0;
                 for (uint64_t i = w; i < n; i += T, k++)
                 {
-                    if ((k & 15) == 0)
                     {
                         if (stop.load(std::memory_order_relaxed))
                             break;
